@@ -421,13 +421,8 @@ def sl7(F, R):
             continue
         R.analysed(b)
         n = 0
-        for d in b.defs().get(0, []):
-            site = (d[0], d[1])
-            try:
-                v = strip_load(b.expr_rvalue(d[3], site) if d[2] == "assign" else b.expr_call(d[3], site))
-            except Exception:
-                continue
-            if not (v[0] == "agg" and v[2] == "Err"):
+        for site, kind, st in b.sites():
+            if not (kind == "stmt" and st["k"] == "assign" and st["rv"]["k"] == "aggregate" and st["rv"].get("variant") == "Err"):
                 continue
             n += 1
             facts = b.facts_at(site)
@@ -634,7 +629,7 @@ def refuses_an_id_beyond_the_capacity(b, bi, e):
                 except Exception:
                     return False
                 vals.append(strip_load(v))
-        if vals and all(v[0] == "agg" and v[2] == "Err" for v in vals):
+        if vals and all((v[0] == "agg" and v[2] == "Err") or (v[0] == "call" and v[1].split("::")[-1] == "from_residual") for v in vals):
             return True
     return False
 
